@@ -179,3 +179,43 @@ package datalog
 //@ modifies nothing
 //@ ensures strings: left is String && right is String && symValid(symbols, left.(String)) && symValid(symbols, right.(String)) ==> err == nil && res == Bool(strHasSuffix(symStr(symbols, left.(String)), symStr(symbols, right.(String))))
 //@ ensures illtyped: !(left is String && right is String) ==> err != nil && res == nil
+
+// ---------------------------------------------------------------------------
+// sets
+
+//@ func (s Set) contains(t Term) (result bool)
+//@ serves C06 C10
+//@ requires setWF(s)
+//@ modifies nothing
+//@ loop 0 invariant forall j int :: 0 <= j && j < #i ==> !scalarEq(s[j], t)
+//@ ensures result == memberOf(t, s)
+
+//@ func (s Set) Equal(t Term) (result bool)
+//@ serves C06 C10
+//@ requires setWF(s) && (t is Set ==> setWF(t.(Set)))
+//@ modifies nothing
+//@ loop 0 invariant forall j int :: 0 <= j && j < #i ==> memberOf(s[j], t.(Set))
+//@ ensures not_a_set: !(t is Set) ==> !result
+//@ ensures sets: t is Set ==> result == (len(t.(Set)) == len(s) && (forall j int :: 0 <= j && j < len(s) ==> memberOf(s[j], t.(Set))))
+
+//@ func (s Set) Intersect(t Set) (result Set)
+//@ serves C06 C10
+//@ requires setWF(s) && setWF(t)
+//@ modifies nothing
+//@ loop 0 invariant fresh(arr(result)) && setWF(result)
+//@ loop 0 invariant forall k int :: 0 <= k && k < len(result) ==> memberOf(result[k], t) && memberOf(result[k], s)
+//@ ensures wf: setWF(result) && fresh(arr(result))
+//@ ensures sound: forall k int :: 0 <= k && k < len(result) ==> memberOf(result[k], t) && memberOf(result[k], s)
+// not claimed (solver budget): completeness, every s[j] that occurs in t occurs in result
+
+//@ func (s Set) Union(t Set) (result Set)
+//@ serves C06 C10
+//@ requires setWF(s) && setWF(t)
+//@ modifies nothing
+//@ loop 0 invariant fresh(arr(result)) && setWF(result) && len(result) >= len(s)
+//@ loop 0 invariant forall k int :: 0 <= k && k < len(result) ==> memberOf(result[k], t) || memberOf(result[k], s)
+//@ loop 0 invariant forall j int :: 0 <= j && j < len(s) ==> result[j] == s[j]
+//@ ensures wf: setWF(result) && fresh(arr(result))
+//@ ensures sound: forall k int :: 0 <= k && k < len(result) ==> memberOf(result[k], t) || memberOf(result[k], s)
+//@ ensures has_left: forall j int :: 0 <= j && j < len(s) ==> result[j] == s[j]
+// not claimed (solver budget): has_right, every t[j] occurs in result
